@@ -100,6 +100,8 @@ def lower_unit(u, outdir):
                 f.keep_until = tuple(t['keep_until'])
                 f.export_locals = t.get('export_locals', [])
                 f.region_return = t.get('region_return')
+            if t.get('keep_after'):
+                f.keep_after = tuple(t['keep_after'])
             if t.get('keep_top'):
                 f.keep_top = [tuple(x) for x in t['keep_top']]
                 f.export_locals = t.get('export_locals', [])
